@@ -110,7 +110,8 @@ func ReadFile(r Reader, out interface{}, cb func(val unsafe.Pointer, rb *Resourc
 		return err
 	}
 
-	var decoder compressionCodec
+	// A header without an avro.codec entry means the blocks are not compressed.
+	var decoder compressionCodec = nullCompression{}
 	if compress, ok := fh.Meta["avro.codec"]; ok {
 		switch string(compress) {
 		case "null":
